@@ -59,18 +59,27 @@ func ModelCleartext(text []byte) *Cleartext {
 	return c
 }
 
-// Squash removes every CR, space and tab and guarantees a final LF (unless
-// empty): the coarse form that is equal before and after canonicalisation
-// under every reading of §7.1.
+// Squash is the coarse form of a text that is the same before and after
+// canonicalisation under every reading of §7.1 that takes LF as the line
+// separator: per line every CR, space and tab is removed and the line is
+// followed by LF; an unterminated last line counts if it has any octet.
 func Squash(text []byte) []byte {
 	var out []byte
-	for _, b := range text {
-		if b == '\r' || b == ' ' || b == '\t' {
-			continue
+	rest := text
+	for len(rest) > 0 {
+		var line []byte
+		i := bytes.IndexByte(rest, '\n')
+		if i < 0 {
+			line, rest = rest, nil
+		} else {
+			line, rest = rest[:i], rest[i+1:]
 		}
-		out = append(out, b)
-	}
-	if len(out) > 0 && out[len(out)-1] != '\n' {
+		for _, b := range line {
+			if b == '\r' || b == ' ' || b == '\t' {
+				continue
+			}
+			out = append(out, b)
+		}
 		out = append(out, '\n')
 	}
 	return out
